@@ -42,13 +42,18 @@ def detect_variant():
         t2 = {"files": dict(base, **{"k.py": M([("F", 0, ("a",), [("b", "x")])], [("x", "f")])}), "dirs": []}
         o2 = L.run_rope_op(t2, ("move", ("P", ("a",), "b"), ()))
         rootfrom = "import b as x" in o2["files"].get("k.py", "") and "from a import" not in o2["files"].get("k.py", "")
-        _VARIANT = {"relctx": relctx, "rootfrom": rootfrom}
+        t3 = {"files": {"c/__init__.py": M(), "c/b/__init__.py": M(), "c/b/b.py": M(globals_=["f"]), "d/__init__.py": M(),
+                        "c/k.py": M([("F", 1, ("b",), [("b", None)])], [("b", "f")])}, "dirs": []}
+        o3 = L.run_rope_op(t3, ("move", ("D", ("c", "b")), ("d",)))
+        case3abs = "from d.b import b" in o3["files"].get("c/k.py", "")
+        _VARIANT = {"relctx": relctx, "rootfrom": rootfrom, "case3abs": case3abs}
     return _VARIANT
 
 
 def g_variant():
     v = detect_variant()
-    return "{| v_relctx := %s; v_rootfrom := %s |}" % (g_bool(v["relctx"]), g_bool(v["rootfrom"]))
+    return "{| v_relctx := %s; v_rootfrom := %s; v_case3abs := %s |}" % (
+        g_bool(v["relctx"]), g_bool(v["rootfrom"]), g_bool(v["case3abs"]))
 
 
 # ----------------------------------------------------------------------------- relpath maps
@@ -86,10 +91,19 @@ def g_op(op):
 
 # ----------------------------------------------------------------------------- scenarios
 def gen_scenario(rng, kind):
-    tree, pkgs = G.gen_tree(rng)
-    movers = G.movers_of(tree, pkgs)
-    if kind == "topackage":
-        movers = [m for m in movers if m[0] == "P"]
+    # the generator is total: a tree without a suitable mover is regenerated, and after a few attempts a module
+    # is added to the first package
+    for attempt in range(8):
+        tree, pkgs = G.gen_tree(rng)
+        movers = G.movers_of(tree, pkgs)
+        if kind == "topackage":
+            movers = [m for m in movers if m[0] == "P"]
+        if movers:
+            break
+    if not movers:
+        rel = "/".join(tuple(pkgs[0]) + ("b.py",))
+        tree["files"][rel] = L.mk_module(globals_=["f"])
+        movers = [L.res_of_relpath(rel)]
     mover = rng.choice(movers)
     if kind == "move" and mover[0] == "P" and mover[1] and rng.random() < 0.6:
         # give some legal destination a module whose name merely starts with the mover's (c/bb.py for a/b.py)
@@ -341,6 +355,12 @@ def classify(tree, op, rel):
                 sigs.append("ancestor-package-of-mover-reached-by-attribute")
     # relative from-imports naming the mover are invisible to _change_import_statements (its ImportContext has
     # no folder): aliased ones stay stale, doubled ones are half rewritten, deeper ones raise AttributeError
+    # Case 3 of _change_import_statements keeps the level of a relative `from .b import b` (module part = the mover,
+    # one imported name spelled like the mover) although the new module name is absolute: `from .dest.b import b`
+    for s in m["imports"]:
+        if s[0] == "F" and s[1] >= 1 and s[2] and any(n == b for n, _ in s[3]) \
+                and rs.from_base(folder, s[1], s[2]) == L.canon(mover) and not variant["case3abs"]:
+            sigs.append("relative-from-import-from-mover-keeps-level")
     # (the plain `from . import b` alone is handled: remove_old_imports + `import dest.b`)
     for i, s in enumerate(m["imports"]):
         if s[0] == "F" and s[1] >= 1 and any(n == b for n, _ in s[3]) and not variant["relctx"]:
